@@ -210,7 +210,10 @@ class Evolver:
                 return {"kind": "map", "key": {"kind": "base", "name": "integer"}, "value": {"kind": "base", "name": "string"}}
             return {"kind": "map", "key": {"kind": "reference", "name": self.pick(pool)}, "value": self.simple_type(depth + 1, False)}
         if k == "string-literal":
-            return {"kind": "stringLiteral", "value": self.pick(["vf", "vf", "vf-", "vf.", "vf caf\u00e9 ", "vf\U0001F680", "vf/"]) + self.pick(WORDS_U)}
+            # the prefixes take turns, so that a model with a handful of literals has every kind of value
+            self.literal_turn = getattr(self, "literal_turn", self.draw(st.integers(0, 6))) + 1
+            prefix = ["vf", "vf\U0001F680", "vf-", "vf caf\u00e9 ", "vf.", "vf/", "vf"][self.literal_turn % 7]
+            return {"kind": "stringLiteral", "value": prefix + self.pick(WORDS_U)}
         if k == "tuple":
             n = self.draw(st.integers(2, 3))
             return {"kind": "tuple", "items": [{"kind": "base", "name": self.pick(["string", "integer", "uinteger", "boolean", "decimal"])} for _ in range(n)]}
